@@ -199,20 +199,23 @@ def fault_injection(ctx, build, stats):
                     ctx.violation("counterexample", "disk crash: child killed at pwrite64 #%d, image reopened" % k,
                                   {"proto": "disk-kill", "ops": ops, "kill_at_pwrite": k},
                                   expected={"old": strip(old), "new": strip(new)}, observed=strip(after))
-        # failures while opening
+        # failures while opening — with a prior image that has to GROW (5 bytes), one that has to SHRINK (a partial block more, and
+        # several blocks more, than the three requested): the resize fails either way, and the error must come back
         for sc in ["ftruncate", "fstat", "openat"]:
             for errno in errnos[:2]:
-                got, rc, err = strace_run(["newimg 3 5 9", "size", "read 0"], scratch, "%s:error=%s:when=%d" % (sc, errno, 1 if sc != "openat" else 0), sc) \
-                    if sc != "openat" else (None, 0, "")
-                if got is None:
-                    continue
-                stats["fault_runs"] += 1
-                stats["fault_classes"]["%s:%s" % (sc, errno)] += 1
-                if got[:1] != ["panic"] and not found:
-                    found = True
-                    ctx.violation("counterexample", "disk open: %s fails with %s" % (sc, errno),
-                                  {"proto": "disk-fault", "ops": ["newimg 3 5 9", "size", "read 0"], "inject": "%s:error=%s:when=1" % (sc, errno), "syscall": sc},
-                                  expected=["panic (NewFileDisk must return the error)"], observed=got)
+                for plen in (5, 3 * 4096 + 777, 8 * 4096):
+                    oops = ["newimg 3 %d 9" % plen, "size", "read 0"]
+                    got, rc, err = strace_run(oops, scratch, "%s:error=%s:when=%d" % (sc, errno, 1 if sc != "openat" else 0), sc) \
+                        if sc != "openat" else (None, 0, "")
+                    if got is None:
+                        continue
+                    stats["fault_runs"] += 1
+                    stats["fault_classes"]["%s:%s" % (sc, errno)] += 1
+                    if got[:1] != ["panic"] and not found:
+                        found = True
+                        ctx.violation("counterexample", "disk open: %s fails with %s (prior image of %d bytes, 3 blocks requested)" % (sc, errno, plen),
+                                      {"proto": "disk-fault", "ops": oops, "inject": "%s:error=%s:when=1" % (sc, errno), "syscall": sc},
+                                      expected=["panic (NewFileDisk must return the error)"], observed=got)
     finally:
         shutil.rmtree(scratch, ignore_errors=True)
     return found
